@@ -71,13 +71,10 @@ def compare(script, ro=None, cache0=None, flags=None, limits=DEFAULT_LIMITS, con
     if ref[0] == 'unspec':
         return Result('unspec', why=ref[1], impl=(None, None, None), ref=ref)
     impl = run_impl(script, ro, cache0, flags, limits, contracts)
-    res = judge(impl, ref)
-    if res.verdict == 'viol' and e.loop_ret_seen:
-        ref2, _ = run_ref([script], ro, cache0, flags, limits, contracts, now, loop_return='propagate')
-        res2 = judge(impl, ref2)
-        if res2.verdict != 'viol':
-            return res2
-    return res
+    # RETURN inside a LOOP body ends the loop and execution continues after it (standing decision, DESIGN 2.4:
+    # language_spec.md - "OP_RETURN ends only the local execution and returns to the outer context" - and the pinned
+    # implementation agree on this for loop bodies; until round 5 "ends the whole script" was accepted as well)
+    return judge(impl, ref)
 
 
 def judge(impl, ref):
